@@ -291,6 +291,11 @@ def make_case(rng):
     if rng.random() < 0.25:
         cost["hgt"] = "inf"
     syn = gen.random_syntenies(rng, gl, 4, ordered=True, consistent_p=1.0)
+    if rng.random() < 0.5:
+        # family names that differ only by zero padding / case / an embedded number: distinct families all the same
+        pool = rng.sample(["g1", "g01", "g001", "g10", "orf2", "orf02", "G1", "2", "02", "a_1", "a_01", "x"], 4)
+        ren = {f"f{i}": pool[i] for i in range(4)}
+        syn = {g: [ren[f] for f in fs] for g, fs in syn.items()}
     return {"kind": "rt", "Gd": Gd, "Sd": Sd, "leafmap": {g: rng.choice(sl) for g in gl}, "costs": cost, "syn": syn, "style": style, "rseed": rng.randrange(10**9)}
 
 
